@@ -105,6 +105,8 @@ func body(r *vf.Run) {
 		stageConcL1(r)
 	case "conc2":
 		stageConcL2(r)
+	case "l2x":
+		stageL2X(r)
 	case "l2gate":
 		stageL2Gate(r)
 	case "l3":
@@ -128,7 +130,7 @@ func top(r *vf.Run) {
 		stages = append(stages, st{"l2", true, []string{fmt.Sprint(i), fmt.Sprint(nb2)}, 14 * time.Minute})
 	}
 	stages = append(stages, st{"hist", true, nil, 14 * time.Minute}, st{"histp", true, nil, 14 * time.Minute},
-		st{"histc", true, nil, 14 * time.Minute}, st{"conc1", true, nil, 14 * time.Minute}, st{"conc2", true, nil, 14 * time.Minute})
+		st{"histc", true, nil, 14 * time.Minute}, st{"conc1", true, nil, 14 * time.Minute}, st{"conc2", true, nil, 14 * time.Minute}, st{"l2x", true, nil, 14 * time.Minute})
 	nb := r.N(4, 8) // l1 batches
 	for i := 0; i < nb; i++ {
 		stages = append(stages, st{"l1", false, []string{fmt.Sprint(i), fmt.Sprint(nb)}, 14 * time.Minute})
